@@ -17,6 +17,23 @@ CHECKS = {
             "against the property (Pass A) and the model (Pass B). Exhaustive over the stated range.",
             "TLC/Apalache/Z3 soundness; use of the threshold by certificate code is checked under C02/C08/C09.",
             "DESIGN.md section 6, C20"),
+    "C19": ("model_checking",
+            "TLA+ IDSet module (byte-level Bitfield model vs ideal set) exhausted by TLC; TLC trace validation of operation sequences run on the real Bitfield and real Sign/Combine",
+            "TLC exhausts the byte-level model against the ideal set for all insertion orders over boundary ids; operation sequences (exhaustive to a depth over "
+            "boundary ids, random over 1..300, all 0/1/2-byte strings in the thorough tier) are executed on the real crypto.Bitfield and the real "
+            "ECDSA/EdDSA/BLS Sign/Combine, and TLC replays the recorded trace comparing every observation with the ideal set.",
+            "TLC soundness; ids >= 1.", "DESIGN.md section 6, C19"),
+    "C17": ("model_checking",
+            "TLA+ KauriTree module: OneTree checked by TLC on the heap-layout model; TLC line-check of relations dumped from real tree.Tree instances of every replica",
+            "OneTree is stated on the relations only. TLC checks it on the layout model (n<=24, all permutations n<=5) and on the relations dumped by the real "
+            "tree.Tree of every replica for n in 1..40, bf 2..6, all permutations for small n and seeded permutations otherwise.",
+            "TLC soundness; position lists hold distinct ids.", "DESIGN.md section 6, C17"),
+    "C16": ("model_checking",
+            "TLA+ Leader module checked by TLC for n<=64; TLC line-check of GetLeader tables and of carousel/reputation answers of two independent real instances",
+            "Round-robin validity and one-turn-each are checked by TLC on the model for every n<=64 and on the real tables (views near 0, 2^16..2^64); carousel "
+            "answers on generated committed chains are checked to lie in the candidate set defined in the spec and to agree across two independent instances; "
+            "reputation answers must be deterministic; panics are recovered and reported.",
+            "TLC soundness; committed heads carry QCs with a quorum of distinct configured signers.", "DESIGN.md section 6, C16"),
 }
 
 NOT_YET = {}
